@@ -834,7 +834,7 @@ def run(ctx, sf):
     flush_heap_decompose(ctx, hr, hp)
     dagger_inverse_checks(ctx, sf)
     rng = ctx.rng
-    n = ctx.n(24, 220)
+    n = ctx.n(24, 900)
     for k in range(n):
         for backend in ("gaussian", "fock", "bosonic"):
             spec = gen_session(rng, backend, cross=(k % 10 == 9))
